@@ -10,10 +10,9 @@
   `pyEval`  : Python's value of a node on ints, bools and floats while the evaluation stays inside the agreement subset
               (as `denotePy`, plus: int→float promotion in mixed arithmetic and comparisons, `/` only with a float operand and a
               non-zero divisor, float `%` under the `ModLaw` guard). At every `%` it also checks that the operand type tags the
-              emitter used for choosing `fmod` (`primary_raw = right_raw`, py2cpp.py:1486: the type of the *previous right
-              element*) describe the actual operand values — `Err.tagMismatch` otherwise: that is not a restriction of the
+              emitter used for choosing `fmod` (`primary_raw`, py2cpp.py:1486-1499: floating point once an element was, `Ty.acc`) describe the actual operand values — `Err.tagMismatch` otherwise: that is not a restriction of the
               Python subset but the exact condition under which the emitted template is the right one (see
-              `C01.fmod_left_type_counterexample`).
+              `C01.fmod_left_type_regression`: the repaired `fmod:left-type`).
   `cEval`   : the value ISO C++20 gives a tree of the wrapper grammar (`X`): usual arithmetic conversions int→float, `%` only on
               ints, `fmod(x, y)` call, conditional expression, short-circuit `&& ||`; call forms other than `fmod` (the `in`
               forms need containers) are `Err.unsupported`.
@@ -154,16 +153,16 @@ def pyEvalRest {F : Type} (ops : FOps F) (ρ : PEnv F) (acc : PVal F) (pty : Ty)
   | .cons op _ ty e rest =>
     match op with
     | .or => match acc with
-      | .bool true => pyEvalRest ops ρ (.bool true) ty rest
+      | .bool true => pyEvalRest ops ρ (.bool true) (pty.acc ty) rest
       | .bool false => match pyEval ops ρ e with
-        | .ok (.bool b) => pyEvalRest ops ρ (.bool b) ty rest
+        | .ok (.bool b) => pyEvalRest ops ρ (.bool b) (pty.acc ty) rest
         | .ok _ => .error .outOfSubset
         | .error er => .error er
       | _ => .error .outOfSubset
     | .and => match acc with
-      | .bool false => pyEvalRest ops ρ (.bool false) ty rest
+      | .bool false => pyEvalRest ops ρ (.bool false) (pty.acc ty) rest
       | .bool true => match pyEval ops ρ e with
-        | .ok (.bool b) => pyEvalRest ops ρ (.bool b) ty rest
+        | .ok (.bool b) => pyEvalRest ops ρ (.bool b) (pty.acc ty) rest
         | .ok _ => .error .outOfSubset
         | .error er => .error er
       | _ => .error .outOfSubset
@@ -173,7 +172,7 @@ def pyEvalRest {F : Type} (ops : FOps F) (ρ : PEnv F) (acc : PVal F) (pty : Ty)
         | .ok r =>
           if op = .mod ∧ (pty.isFloat || ty.isFloat) ≠ (acc.isF || r.isF) then .error .tagMismatch
           else match pyBin2 ops op acc r with
-            | .ok v => pyEvalRest ops ρ v ty rest
+            | .ok v => pyEvalRest ops ρ v (pty.acc ty) rest
             | .error er => .error er
         | .error er => .error er
 end
